@@ -57,6 +57,7 @@ def sem(cmds,st):
             ev=note_on(st,key,ln,qq,vv,tt)
             if st.harm is not None: st.tr[st.cur].tp=st.harm[0]; st.harm[1].append(ev)
             else: t.ev.append(ev)
+        elif k=='raw': out.append(c[1])      # verbatim text of a command that writes non-note events on the current track
         elif k=='noten':
             _,no,L,q,v,tm=c
             qq=t.q if q in (None,0) else q; vv=t.v if (v is None or v<0) else v; tt=t.t if tm is None else tm
@@ -195,7 +196,7 @@ def gen_cmds(r,depth,n,in_div=False,in_chord=False,top=False):
     for _ in range(n):
         x=r.random()
         if x<0.42: out.append(gen_note(r,depth,in_div))
-        elif x<0.50 and not in_chord: out.append(('rest',gen_len(r) if not in_div else None,1))
+        elif x<0.50 and not in_chord: out.append(('rest',gen_len(r) if not in_div else None,(-1 if (r.random()<0.08 and not in_div) else 1)))      # r- moves the pointer back
         elif x<0.56: out.append(('l',gen_len(r,False)))
         elif x<0.61: out.append(('o',r.randrange(0,12)))
         elif x<0.66: out.append(('orel',r.choice([1,-1])))
@@ -262,6 +263,7 @@ def sexp(cmds):
             out.append("(noten %d %s %s %s %s)" % (no, _len_sexp(L), _oi(q), _oi(v), _oi(tm)))
         elif k == 'rest': out.append("(rest %s %d)" % (_len_sexp(c[1]), c[2]))
         elif k == 'l': out.append("(l %s)" % _len_sexp(c[1]))
+        elif k == 'raw': out.append("(voice 1)")      # no effect on the sounded notes
         elif k in ('o', 'orel', 'v', 'vrel', 'q', 't', 'tr', 'ch', 'voice', 'kshift', 'tkey'): out.append("(%s %d)" % (k, c[1]))
         elif k == 'tsync': out.append("(tsync)")
         elif k == 'play': out.append("(play (%s))" % " ".join(sexp(p) for p in c[1]))
